@@ -50,21 +50,23 @@ func intsStr(l []int) string {
 
 // run holds one history being executed against implementation and model.
 type run struct {
-	w        *world
-	drv      *hx.Driver
-	prev     map[string]string // worker -> task assignments of the previous dump
-	last     string            // last canonical dump
-	fail     *failure
-	flags    map[string]bool
-	steps    int
-	tie      bool
-	streams  map[int]*streamMon // C02 monitor state per client
-	doneTask map[int]string     // op name -> final payload "code/tok" (C03 same-final, C01 no restart)
-	hist     *hx.Result
-	prevSt   *scheduler.VerifState // state before the current segment (for per-decision checks)
-	noModel  bool                  // monitor-only mode: used to search for a failing input after a mismatch
-	onlyProp string                // when set, findings and structural invariants of other properties do not end the run
-	pending  *failure              // a model/implementation disagreement that does not stop the history: a violation found later in the same history takes precedence (see finish)
+	w          *world
+	drv        *hx.Driver
+	prev       map[string]string // worker -> task assignments of the previous dump
+	last       string            // last canonical dump
+	fail       *failure
+	flags      map[string]bool
+	steps      int
+	tie        bool
+	streams    map[int]*streamMon // C02 monitor state per client
+	doneTask   map[int]string     // op name -> final payload "code/tok" (C03 same-final, C01 no restart)
+	hist       *hx.Result
+	prevSt     *scheduler.VerifState // state before the current segment (for per-decision checks)
+	noModel    bool                  // monitor-only mode: used to search for a failing input after a mismatch
+	onlyProp   string                // when set, findings and structural invariants of other properties do not end the run
+	syncRet    map[string]int64      // worker -> fake-clock time its last Synchronize call returned
+	syncActive map[string]bool       // workers that were inside Synchronize at the end of the previous segment
+	pending    *failure              // a model/implementation disagreement that does not stop the history: a violation found later in the same history takes precedence (see finish)
 }
 
 // finish turns a pending disagreement into the history's failure when nothing worse was found.
@@ -450,6 +452,13 @@ func (r *run) apply(line string) {
 		r.streams[c] = &streamMon{op: -1}
 		w.startWait(c, atoi(a[1]))
 		r.window(fmt.Sprintf("wait %d %d %s", now, c, a[1]), an)
+	case "sendrel": // c   (monitor-only histories with slow sends)
+		if !r.noModel {
+			return
+		}
+		if w.releaseSend(atoi(a[0])) {
+			r.window("sendrel", an)
+		}
 	case "cancel": // c
 		c := atoi(a[0])
 		cl, ok := w.clients[c]
@@ -557,6 +566,13 @@ func uuidString(u [16]byte) string {
 // retain nothing created on behalf of clients and workers (C06).
 func (r *run) quiesce() {
 	w := r.w
+	w.slowSends = false
+	for len(w.sending) > 0 && r.fail == nil {
+		for c := range w.sending {
+			r.apply(fmt.Sprintf("0 sendrel %d", c))
+			break
+		}
+	}
 	for c, cl := range w.clients {
 		if !cl.done && r.fail == nil && !r.tie {
 			r.apply(fmt.Sprintf("1 cancel %d", c))
@@ -638,6 +654,9 @@ func (r *run) quiesce() {
 // endBubble releases every goroutine so that synctest can finish.
 func (r *run) endBubble() {
 	w := r.w
+	for c := range w.sending {
+		w.releaseSend(c)
+	}
 	for _, cl := range w.clients {
 		cl.cancel()
 	}
@@ -653,7 +672,7 @@ func (r *run) endBubble() {
 
 func runHistory(t *testing.T, drv *hx.Driver, lines []string, quiesce bool) *run {
 	watchReset()
-	r := &run{drv: drv, prev: map[string]string{}, flags: map[string]bool{}, streams: map[int]*streamMon{}, doneTask: map[int]string{}}
+	r := &run{drv: drv, prev: map[string]string{}, flags: map[string]bool{}, streams: map[int]*streamMon{}, doneTask: map[int]string{}, syncRet: map[string]int64{}}
 	synctest.Test(t, func(t *testing.T) {
 		r.w = newWorld(defaultCfg)
 		c := defaultCfg
